@@ -372,7 +372,7 @@ impl MWorld {
 
     pub fn violate(&mut self, property: &str, clause: &str, detail: String) {
         if self.pending_violation.is_none() {
-            self.pending_violation = Some(Violation::new(property, clause, detail));
+            self.pending_violation = Some(crate::engine::violation(property, clause, detail));
         }
     }
 
